@@ -41,6 +41,7 @@ type BStep struct {
 	Impl   string            `json:"impl"`
 	Raw    []byte            `json:"raw,omitempty"`
 	Canned []byte            `json:"canned,omitempty"` // api call against a foreign peer that answers with this frame
+	Closed bool              `json:"closed,omitempty"` // the connection is closed before the stub runs
 	Reply  BReply            `json:"reply"`
 	Recvs  int               `json:"recvs"`
 }
